@@ -132,9 +132,9 @@ static std::vector<Parsed> refParse(const std::vector<std::string>& av) {   // a
   return out;
 }
 static void argumentsOp(uint64_t seed) {
-  std::vector<std::string> av; { Host h; av.push_back("prog"); int n = (int)(seed % 6); seed /= 6; for (int i = 0; i < n; ++i) { av.push_back(argWords[seed % 30]); seed /= 30; } }
-  // every argv[i] lives in an exactly sized arena block: reading past a terminator is caught by the shadow
-  int argc = (int)av.size(); char** argv = new char*[argc];
+  std::vector<std::string> av; { Host h; av.push_back("prog"); int n = (int)(seed % 6); seed /= 6; for (int i = 0; i < n; ++i) { av.push_back(argWords[seed % 30]); seed /= 30; } if (seed % 13 == 12) { av.clear(); probe("empty_argument_vector"); } }   /* argc == 0: what execve(path, {NULL}, envp) hands to a program */
+  // every argv[i] lives in an exactly sized arena block: reading past a terminator is caught by the shadow; the vector itself ends with the NULL entry argv[argc]
+  int argc = (int)av.size(); char** argv = new char*[argc + 1]; argv[argc] = 0;
   for (int i = 0; i < argc; ++i) { argv[i] = new char[av[i].size() + 1]; memcpy(argv[i], av[i].c_str(), av[i].size() + 1); }
   std::vector<Parsed> got;
   { Process::Arguments args(argc, argv, optTable); int ch; String a; int guard = 0; while (args.read(ch, a) && ++guard < 64) { Host h; got.push_back({ch, std::string((const char*)a, a.length())}); } if (guard >= 64) fail("C20/arguments_no_end", "Process::Arguments::read did not stop after 64 results"); }
@@ -166,6 +166,7 @@ static void doOpen(const Op& op) {
     else { C.streams = 0; ok = C.proc->start(String("/bin/exe"), n, argv, env) != 0; }
     for (int i = 0; i < n; ++i) delete[] argv[i]; delete[] argv;
   }
+  if (!ok && simproc::vforkFailureCount()) { probe("open_failed_no_process_could_be_created"); return; }   /* injected: the system could not create another process; nothing was started */
   if (!ok) fail("C20/open_failed", "Process::open/start returned failure");
   C.opened = true; C.pid = (int)C.proc->getProcessId();
   simproc::Child* c = simproc::findChild(C.pid);
@@ -181,8 +182,12 @@ static void drainAndJoin() {
     C.proc2 = new Process; C.streams2 = 1 + (unsigned)(simdrv::knob(*C.spec, "second_process", 0) % 3); C.watermark = simnet::fileIdWatermark();
     unsigned keep = C.streams; std::string ep = C.expProgram; std::vector<std::string> ea = C.expArgv, ee = C.expEnv; bool epe = C.expParentEnv;
     { Host h; C.expProgram = "prog2"; C.expArgv = {"prog2", "x"}; C.expEnv.clear(); C.expParentEnv = true; } C.streams = C.streams2;
-    if (!C.proc2->open(String("prog2 x"), C.streams2)) fail("C20/open_failed", "second Process::open failed");
-    C.pid2 = (int)C.proc2->getProcessId(); simproc::Child* c2 = simproc::findChild(C.pid2); if (c2 && c2->execed) checkImage(c2);
+    uint64_t vf0 = simproc::vforkFailureCount();
+    if (!C.proc2->open(String("prog2 x"), C.streams2)) {
+      if (simproc::vforkFailureCount() == vf0) fail("C20/open_failed", "second Process::open failed");
+      /* the system could not create another process: the failed object is dropped; the first process must not notice */
+      probe("second_open_failed_no_process_could_be_created"); delete C.proc2; C.proc2 = 0; }
+    if (C.proc2) { C.pid2 = (int)C.proc2->getProcessId(); simproc::Child* c2 = simproc::findChild(C.pid2); if (c2 && c2->execed) checkImage(c2); }
     { Host h; C.expProgram = ep; C.expArgv = ea; C.expEnv = ee; C.expParentEnv = epe; } C.streams = keep; probe("second_process");
   }
   unsigned open = C.streams & (Process::stdoutStream | Process::stderrStream);
@@ -230,6 +235,7 @@ static void drainAndJoin() {
     if (c2 && c2->execed) { if (code2 != 5) fail("C20/exit_code", "second process: join() returned %u, the child exited with 5", code2); NoPreempt np; if (C.p2Out != C.c2Out || C.p2Err != C.c2Err) fail("C20/output_lost", "second process: read %llu/%llu bytes, the child wrote %llu/%llu", (unsigned long long)C.p2Out, (unsigned long long)C.p2Err, (unsigned long long)C.c2Out, (unsigned long long)C.c2Err); }
     delete C.proc2; C.proc2 = 0;
   }
+  if (simproc::vforkFailureCount()) return;   /* (the pipes of an open() whose vfork failed stay open in the unchanged library - DESIGN.md O10, outside the statement) */
   if (simnet::openFdCount() != 0) fail("C20/descriptor_left_open", "%d pipe descriptors still open in the parent after join/kill", simnet::openFdCount());
 }
 
@@ -270,7 +276,7 @@ static void generate(RunSpec& s, int tier) {
   auto r = [&](uint64_t n) { z += 0x9e3779b97f4a7c15ULL; uint64_t x = z; x = (x ^ (x >> 30)) * 0xbf58476d1ce4e5b9ULL; x = (x ^ (x >> 27)) * 0x94d049bb133111ebULL; x ^= x >> 31; return n ? x % n : x; };
   int mode = r(4) == 0 ? 1 : 0; s.knobs["mode"] = mode;
   if (mode == 1) { int n = 1 + (int)r(12); for (int i = 0; i < n; ++i) { Op o; o.task = 0; o.code = A_PARSE; o.a[0] = (int64_t)r(1u << 30); o.a[1] = (int64_t)r(1u << 30); o.a[2] = o.a[3] = 0; s.plan.push_back(o); } return; }
-  static const int caps[] = {1, 16, 512, 4096, 65536}; s.knobs["pipe_cap"] = caps[r(5)]; s.knobs["exit_code"] = r(4) == 0 ? r(256) : r(3); s.knobs["drain_with_select"] = r(2); s.knobs["read_chunk"] = r(4096); s.knobs["kill_instead_of_join"] = r(10) == 0; s.knobs["stdin_readable"] = r(2); s.knobs["join_without_reading"] = r(4) == 0; s.knobs["full_mask"] = r(2);
+  static const int caps[] = {1, 16, 512, 4096, 65536}; s.knobs["pipe_cap"] = caps[r(5)]; s.knobs["exit_code"] = r(4) == 0 ? r(256) : r(3); s.knobs["drain_with_select"] = r(2); s.knobs["read_chunk"] = r(4096); s.knobs["kill_instead_of_join"] = r(10) == 0; s.knobs["stdin_readable"] = r(2); s.knobs["vfork_fail_pct"] = r(5) == 0 ? 50 : 0; s.knobs["join_without_reading"] = r(4) == 0; s.knobs["full_mask"] = r(2);
   static const int pct[] = {0, 0, 10, 30}; s.knobs["pipe_fault_pct"] = pct[r(4)]; s.knobs["eintr_pct"] = r(3) == 0 ? 5 : 0; s.knobs["exec_fail_pct"] = r(8) == 0 ? 100 : 0; s.knobs["second_process"] = r(3) == 0 ? 1 + r(3) : 0;
   static const int synck[] = {0, 1, 2, 4}; s.knobs["sync_switch_log2"] = synck[r(4)]; static const int memk[] = {255, 255, 8, 5}; s.knobs["mem_switch_log2"] = memk[r(4)];
   { Op o; o.task = 0; o.code = P_OPEN; o.a[0] = (int64_t)r(6); o.a[1] = (int64_t)r(8); o.a[2] = (int64_t)r(4); o.a[3] = (int64_t)r(1u << 30); s.plan.push_back(o); }
@@ -284,7 +290,7 @@ static void generate(RunSpec& s, int tier) {
 static Result execute(const RunSpec& s, bool keepLog) {
   Config cfg;
   cfg.mem_switch_log2 = (int)simdrv::knob(s, "mem_switch_log2", 255); cfg.sync_switch_log2 = (int)simdrv::knob(s, "sync_switch_log2", 2);
-  cfg.rate[K_PIPE] = simdrv::knob(s, "pipe_fault_pct", 0) / 100.0; cfg.rate[K_EINTR] = simdrv::knob(s, "eintr_pct", 0) / 100.0; cfg.rate[K_CHILD] = simdrv::knob(s, "exec_fail_pct", 0) / 100.0;
+  cfg.rate[K_PIPE] = simdrv::knob(s, "pipe_fault_pct", 0) / 100.0; cfg.rate[K_EINTR] = simdrv::knob(s, "eintr_pct", 0) / 100.0; cfg.rate[K_CHILD] = simdrv::knob(s, "exec_fail_pct", 0) / 100.0; cfg.rate[K_THREADFAIL] = simdrv::knob(s, "vfork_fail_pct", 0) / 100.0;
   cfg.step_budget = 1500000; cfg.tail_budget_min = 300000; cfg.tail_factor = 1; cfg.keep_log = keepLog;
   C.spec = &s; C.proc = 0; C.streams = 0; C.opened = false; C.pid = 0; C.childOut = C.childErr = C.childIn = C.parentOut = C.parentErr = C.parentIn = 0; C.outEof = C.errEof = C.childSawEof = C.childDone = false; C.exitCode = 0; C.stdinClosed = false; C.parentDone = false; C.proc2 = 0; C.pid2 = 0; C.streams2 = 0; C.c2Out = C.c2Err = C.p2Out = C.p2Err = 0; C.watermark = 0;
   C.expArgv.clear(); C.expEnv.clear(); C.expProgram.clear(); C.expParentEnv = true;
